@@ -338,11 +338,18 @@ val bind_names : string list -> val0 -> env option
 
 val restore : env -> env -> env
 
-type ('f, 'w, 'a) r = (('f, 'a) outcome * env) * 'w
+type ('f, 'w) ans = ('f, val0) outcome * 'w
 
-val eval_block :
+val reout : ('a1, 'a2) outcome -> ('a1, 'a3) outcome
+
+val assigns : stmt list -> bool
+
+val block_assigns : block -> bool
+
+val exec_block :
   tcfg -> (string -> fn_ast option) -> (string -> val0 list -> 'a2 -> ('a1,
-  val0) outcome * 'a2) -> nat -> block -> env -> 'a2 -> ('a1, 'a2, val0) r
+  val0) outcome * 'a2) -> nat -> block -> env -> 'a2 -> (val0 -> env -> 'a2
+  -> ('a1, 'a2) ans) -> ('a1, 'a2) ans
 
 val eval_fn :
   tcfg -> (string -> fn_ast option) -> (string -> val0 list -> 'a2 -> ('a1,
